@@ -8,7 +8,11 @@
          | "kpass m=<equations> n=<x_length> a <re im>*(m*n) b <re im>*m x <re im>*n jtj <re im>*(pl*pl)
                   jtk <re im>*pl sumk <q>"
      kstep <pl> <jtj: re im>*(pl*pl) <jtk: re im>*pl <lambda> <p: re im>*pl
-        -> "kstep none" | "kstep d <re im>*pl p <re im>*pl"      (d = J1 \ k1, p - d) *)
+        -> "kstep none" | "kstep d <re im>*pl p <re im>*pl"      (d = J1 \ k1, p - d)
+     krun <ptol> <ettol> <limit> <the arguments of kpass>
+        -> "krun converged passes=<k> x <re im>*n p <re im>*pl" | "krun failed passes=<k>"   (AutoKernelModel.kernel_run)
+     formq <m> <n> <array after _vnacommon_qrd: re im>*(m*n) <y: re im>*m
+        -> "formq q <re im>*(m*m) k <re im>*(m-n)"   AutoKernelQrQ.qr_formq, and q2h of that Q on y *)
 #include "glue.ml.inc"
 let toks = ref []
 let next () = match !toks with [] -> failwith "short line" | x :: r -> toks := r; x
@@ -34,7 +38,12 @@ let () =
       if !toks <> [] then begin
         let op = next () in
         (match op with
-         | "kpass" ->
+         | "kpass" | "krun" ->
+           let ptol, ettol, limit =
+             if op = "krun" then
+               (let a = qc_of_string (next ()) in let b = qc_of_string (next ()) in
+                let l = int_of_string (next ()) in (a, b, l))
+             else (qc_of_string "0", qc_of_string "0", 0) in
            let xl = nat () in let pl = int_of_string (next ()) in
            let nsys = int_of_string (next ()) in
            let sys = times nsys (fun () ->
@@ -53,6 +62,12 @@ let () =
                { c_w = w; c_i = i; c_other = o }) in
            let p = times pl cx in
            let pr = { pr_xl = xl; pr_sys = sys; pr_corr = corr; pr_pl = nat_of_int pl } in
+           if op = "krun" then begin
+             let (o, tr) = kernel_run pr ptol ettol (nat_of_int limit) p in
+             (match o with
+              | Converged (x, p1) -> Printf.printf "krun converged passes=%d x %s p %s\n" (List.length tr) (vec_str x) (vec_str p1)
+              | _ -> Printf.printf "krun failed passes=%d\n" (List.length tr))
+           end else
            (match kernel_pass pr p with
             | None -> print_string "kpass none\n"
             | Some pd ->
@@ -70,6 +85,13 @@ let () =
            (match kernel_step (nat_of_int pl) (Obj.magic jtj) (Obj.magic jtk) lam with
             | None -> print_string "kstep none\n"
             | Some d -> Printf.printf "kstep d %s p %s\n" (vec_str d) (vec_str (apply_d p d)))
+         | "formq" ->
+           let m = int_of_string (next ()) in let n = int_of_string (next ()) in
+           let a = times m (fun () -> times n cx) in
+           let y = times m cx in
+           let q = q_formq (nat_of_int m) (nat_of_int n) (Obj.magic a) in
+           let k = q_q2h (nat_of_int m) (nat_of_int n) q y in
+           Printf.printf "formq q %s k %s\n" (mat_str (Obj.magic q)) (vec_str k)
          | _ -> Printf.printf "unknown %s\n" op);
         flush stdout
       end
